@@ -16,6 +16,9 @@ package usermanager
 //@ ghost func wfUser(b string) bool {
 //@     return dbKey(b, "SessionsCap") && dbLen(b, "SessionsCap") >= 4 && dbKey(b, "UpRate") && dbLen(b, "UpRate") >= 8 && dbKey(b, "DownRate") && dbLen(b, "DownRate") >= 8 && dbKey(b, "UpCredit") && dbLen(b, "UpCredit") >= 8 && dbKey(b, "DownCredit") && dbLen(b, "DownCredit") >= 8 && dbKey(b, "ExpiryTime") && dbLen(b, "ExpiryTime") >= 8
 //@ }
+// the stored value in the old state (arguments are evaluated in the current state)
+//@ ghost func wasI64(b string, k string) int { return old(dbI64(b, k)) }
+//@ ghost func inInt64(x int) bool { return -9223372036854775808 <= x && x <= 9223372036854775807 }
 //@ ghost func dbWF() bool { return forall b string :: dbHas(b) ==> wfUser(b) }
 
 // AuthenticateUser (C07/C15): nil error only for an existing user with positive credit in both
@@ -106,6 +109,13 @@ package usermanager
 //@   flag inline
 //@   loop 0 invariant wf: dbWF()
 //@   loop 0 invariant ownResult: responses == nil || fresh(responses)
+//@   # C16: every update of an existing user is charged, exactly, on every path through the loop body
+//@   loop 0 step storedUp: bucket != nil ==> dbI64(bkt(status.UID), "UpCredit") == int(newUp) && dbLen(bkt(status.UID), "UpCredit") == 8
+//@   loop 0 step storedDown: bucket != nil ==> dbI64(bkt(status.UID), "DownCredit") == int(newDown) && dbLen(bkt(status.UID), "DownCredit") == 8
+//@   loop 0 step deductedUp: bucket != nil && inInt64(int(oldUp) - int(status.UpUsage)) ==> int(newUp) == int(oldUp) - int(status.UpUsage)
+//@   loop 0 step deductedDown: bucket != nil && inInt64(int(oldDown) - int(status.DownUsage)) ==> int(newDown) == int(oldDown) - int(status.DownUsage)
+//@   loop 0 step twoWrites: bucket != nil ==> ghostget("dbputs", 0) == old(ghostget("dbputs", 0)) + 2
+//@   loop 0 step nobodyElse: forall b string :: b != bkt(status.UID) ==> dbRecSame(b)
 //@ func (*localManager).UploadStatus
 //@   requires manager != nil && manager.db != nil && dbWF()
 //@   ensures keepsRecordsReadable: dbWF()
